@@ -1,5 +1,6 @@
 //! Entry point: `verif <cNN> [--tier quick|thorough] [--replay file]`.
 mod checks;
+mod chips;
 mod cmds;
 mod adev;
 mod ctx;
